@@ -592,7 +592,8 @@ func (tg *txnGen) spoil(ops []TOp) []TOp {
 			ops = append(append(ops[:i:i], del, ins), rest...)
 		}
 	case 0: // unsupported operation
-		ops[i] = TOp{Kind: "other", OpName: []string{"commit", "abort", "comment", "assert"}[g.Intn(4)]}
+		// known but unsupported operations, and names no operation has - with a table given, as a real operation would
+		ops[i] = TOp{Kind: "other", Table: t.Name, OpName: []string{"commit", "abort", "comment", "assert", "bogus", "Select", ""}[g.Intn(7)]}
 	case 1: // ill-typed value
 		c := t.Cols[g.Intn(len(t.Cols))]
 		bad := val.VA(val.Bool(true))
